@@ -5,7 +5,7 @@ wt=${1:-/tmp/wt_try}
 head=$(git -C /repo rev-parse HEAD)
 [ -d $wt ] || git -C /repo worktree add -q --detach $wt $head
 git -C $wt checkout -q -- . ; git -C $wt checkout -q --detach $head
-for f in /verif/regress/C*/*.json; do
+for f in /verif/regress/${VERIFY_ONLY:-C*/*.json}; do  # VERIFY_ONLY='C15/C15_[ghi]*' restricts the run
   pid=$(basename $(dirname $f)); m=$(basename $f | sed 's/__[0-9]*\.json$//')
   clean=$(cd /verif && VERIF_REPO=$wt timeout 600 /venv/bin/python run_check.py $pid --replay $f >/dev/null 2>&1; echo $?)
   if [ "$clean" != "0" ]; then echo "BAD (fails on the unchanged tree, exit $clean): $f"; continue; fi
